@@ -45,6 +45,7 @@ DOC_KEY_MAP = {
     "typed": {"data_id": "i", "str": "s", "kind": "k"}, "typedcb": {"data_id": "i", "str": "s", "kind": "k"},
     "rectyped": {"data_id": "i", "str": "s", "kind": "k"},
     "recpop": {"data_id": "i", "str": "s"}, "recpoptyped": {"data_id": "i", "str": "s", "kind": "k"},
+    "reckind": {"data_id": "i", "str": "s", "kind": "k"},
     "recnest": {"data_id": "i", "str": "s"}, "recshort": {"data_id": "i", "str": "s"},
     "derived": {"data_id": "i", "str": "s", "type": "t", "name": "n", "size": "z"},  # c05.RecTree.DEFAULT_KEY_MAP
     "derivedtyped": {"data_id": "i", "str": "s", "kind": "k", "type": "t", "name": "n"},  # c05.EntTypedTree.DEFAULT_KEY_MAP
@@ -67,7 +68,9 @@ def long_payload(fam: Family, obj, custom_id: bool, data_id, kind):
         d["data_id"] = data_id
     if fam.typed:
         d["kind"] = kind
-    if fam.name == "recnest":
+    if fam.name == "reckind":
+        d.update({"name": obj.name, "size": obj.size})
+    elif fam.name == "recnest":
         d.update({"type": "rec", "name": obj.name, "size": obj.size, "attrs": {"s": obj.size, "i": obj.name, "str": "v", "k": [obj.size, {"s": 1}]}})
     elif fam.name == "recshort":
         d.update({"t": "rec", "i": obj.name, "s": obj.size, "k": True})
@@ -384,6 +387,19 @@ def check_reader(fam: Family, spec: gen.Spec, variant) -> list:
     n_dicts = sum(1 for e in doc["nodes"] if isinstance(e[1], dict))
     if fam.load_mapper is not None and (len(calls) != n_dicts or any(c != "dict" for c in calls)):
         diffs.append((R_MAPPER, f"mapper called {len(calls)} times with {sorted(set(calls))}, the document has {n_dicts} dict entries among {len(doc['nodes'])}; nodes {clip(json.dumps(doc['nodes'], ensure_ascii=False), 200)}"))
+    # the same document again, this time handing in a file_meta dict that still holds the header of an earlier file (a caller
+    # re-using one dict): the document must be read by *its own* header
+    stale = {"$generator": "nutree/0.0.1", "$format_version": "1.0", "$key_map": {"str": "data_id", "kind": "str", "name": "type"},
+             "$value_map": {"data_id": ["q0", "q1", "q2", "q3", "q4", "q5", "q6", "q7", "q8"], "size": ["s0", "s1", "s2", "s3", "s4", "s5"]}, "left over": 1}
+    kw2 = dict(kw, file_meta=copy.deepcopy(stale))
+    try:
+        with time_limit(10):
+            again = fam.load_cls.load(io.StringIO(text), **kw2)
+        got2 = describe(again)
+        if got2.sig() != got.sig():
+            diffs.append((R_TREE, f"with a re-used file_meta dict (header of an earlier file still in it) the same document loads differently: {clip(c05.compare(got, got2)[:2], 200)}"))
+    except Exception as e:  # noqa: BLE001
+        diffs.append((R_EXC, f"with a re-used file_meta dict the same document raised {type(e).__name__}: {clip(str(e), 120)}"))
     if file_meta != doc["meta"]:
         diffs.append((R_META, f"file_meta {clip(file_meta, 150)} != header {clip(doc['meta'], 150)}"))
     return diffs
@@ -571,10 +587,10 @@ MALFORMED_META = [  # 'meta' is not an object: must be rejected (the kind of exc
 ]
 
 
-def check_malformed(cls, name, text, strict=True) -> list:
+def check_malformed(cls, name, text, strict=True, file_meta=None) -> list:
     try:
         with time_limit(10):
-            t = cls.load(io.StringIO(text))
+            t = cls.load(io.StringIO(text)) if file_meta is None else cls.load(io.StringIO(text), file_meta=file_meta)
     except RuntimeError:
         return []
     except Exception as e:  # noqa: BLE001
@@ -649,6 +665,11 @@ def fixed_checks(prop: str) -> Result:
                     for clause, t in check_malformed(cls, name, text, strict):
                         w = {"part": "malformed", "cls": cls.__name__, "name": name, "text": text, "strict": strict, "clause": clause}
                         res.violations.append(Violation(prop, clause, f"{cls.__name__}.load", w, clip(t)))
+                    # ... also when the caller's file_meta dict still holds a valid header from an earlier load
+                    res.add_case(f"malformed {cls.__name__} {name} (re-used file_meta)")
+                    for clause, t in check_malformed(cls, name, text, strict, file_meta={"$generator": "nutree/0.0.1", "$format_version": "1.0"}):
+                        w = {"part": "malformed", "cls": cls.__name__, "name": name, "text": text, "strict": strict, "clause": clause, "stale_meta": True}
+                        res.violations.append(Violation(prop, clause, f"{cls.__name__}.load", w, clip("[file_meta re-used from an earlier load] " + t)))
     except Exception:  # noqa: BLE001
         res.errors.append(traceback.format_exc()[-1200:])
     return res
@@ -680,7 +701,7 @@ def replay(witness: dict, prop: str) -> list:
         diffs = check_example(witness["index"])
     elif part == "malformed":
         cls = {"Tree": Tree, "TypedTree": TypedTree}[witness["cls"]]
-        diffs = check_malformed(cls, witness["name"], witness["text"], witness.get("strict", True))
+        diffs = check_malformed(cls, witness["name"], witness["text"], witness.get("strict", True), file_meta={"$generator": "nutree/0.0.1", "$format_version": "1.0"} if witness.get("stale_meta") else None)
     else:
         fam = FAMILIES[witness["family"]]
         spec = spec_from_json(witness["spec"])
